@@ -103,6 +103,7 @@ type Ctx struct {
 	log      *os.File
 	start    time.Time
 	hung     []hungCase
+	hangs    int
 }
 
 type hungCase struct {
@@ -297,8 +298,23 @@ func (c *Ctx) caseTimeout() time.Duration {
 	return 60 * time.Second
 }
 
+// maxHangs is the per-shard circuit breaker: after that many cases ran into
+// the watchdog, the remaining cases of the shard are skipped (reported as
+// inconclusive), so that a tree on which everything hangs is decided in
+// bounded time.
+const maxHangs = 3
+
 func (c *Ctx) runCase(list string, idx int, fn func(*Case), second bool) {
 	id := fmt.Sprintf("%s/%s/%d", c.Prop.ID, list, idx)
+	if !second {
+		c.mu.Lock()
+		tripped := c.hangs >= maxHangs
+		c.mu.Unlock()
+		if tripped {
+			c.Count("cases_skipped_after_hangs", 1)
+			return
+		}
+	}
 	k := &Case{Ctx: c, List: list, Idx: idx, ID: id, Cancelled: make(chan struct{}), Second: second, fn: fn,
 		R: NewRand(Mix(HashString(c.Prop.ID), HashString(list), c.Seed, uint64(idx)))}
 	if c.log != nil {
@@ -343,6 +359,7 @@ func (c *Ctx) runCase(list string, idx int, fn func(*Case), second bool) {
 			}
 		} else {
 			c.mu.Lock()
+			c.hangs++
 			c.hung = append(c.hung, hungCase{list, idx, fn})
 			c.mu.Unlock()
 		}
@@ -355,8 +372,14 @@ func (c *Ctx) Finish() *ShardResult {
 	hung := c.hung
 	c.hung = nil
 	c.mu.Unlock()
-	for _, h := range hung {
+	for i, h := range hung {
+		if i >= maxHangs+2 {
+			break
+		}
 		c.runCase(h.list, h.idx, h.fn, true)
+	}
+	if c.hangs >= maxHangs {
+		c.Inconclusive(fmt.Sprintf("shard %d: %d cases hit the watchdog; remaining cases skipped", c.Shard, c.hangs))
 	}
 	c.mu.Lock()
 	defer c.mu.Unlock()
